@@ -209,6 +209,12 @@ def max_depth(synset: 'Synset', simulate_root: bool = False) -> int:
     )
 
 
+def _synset_sort_key(synset: 'Synset') -> tuple[int, int, str]:
+    # inferred synsets all have the same _id, so sorting on it alone
+    # would leave them in set order
+    return (synset._id, synset._lexid, synset._ili or '')
+
+
 def _shortest_hyp_paths(
         synset: 'Synset', other: 'Synset', simulate_root: bool
 ) -> dict[tuple['Synset', int], list['Synset']]:
@@ -240,7 +246,8 @@ def _shortest_hyp_paths(
                         depths[ss] = depth
 
     shortest: dict[tuple[Synset, int], list[Synset]] = {}
-    for ss in sorted(common):  # not in set order, which varies between runs
+    # not in set order, which varies between runs
+    for ss in sorted(common, key=_synset_sort_key):
         from_self_subpaths, from_other_subpaths = subpaths[ss]
         shortest_from_self = min(from_self_subpaths, key=len)
         # for the other path, we need to reverse it and remove the pivot synset
@@ -316,7 +323,7 @@ def common_hypernyms(
     from_self = _hypernym_paths(synset, simulate_root, True)
     from_other = _hypernym_paths(other, simulate_root, True)
     common = set(flatten(from_self)).intersection(flatten(from_other))
-    return sorted(common)
+    return sorted(common, key=_synset_sort_key)
 
 
 def lowest_common_hypernyms(
